@@ -31,7 +31,7 @@ theorem restore_is_inverse (s m : M) (dv : List Slot) (dc : List Frame) (h : Ext
     ∃ m', restoreContext (ctxOf s) m = .ok m' ∧
       m'.vs = s.vs ∧ m'.cs = s.cs ∧ m'.cg = s.cg ∧ m'.ctxs = m.ctxs ∧
       ((dc = [] → m.r = s.r) → (∀ f, dc.getLast? = some f → f.saved = s.r) → m'.r = s.r) := by
-  obtain ⟨m', h1, h2, h3, h4, h5, _, h7, h8, _⟩ := restoreContext_ext m dv s.vs dc s.cs s.cg h.vs h.cs s.loadDepth s.restrictDestruct
+  obtain ⟨m', h1, h2, h3, h4, h5, _, h7, h8, _⟩ := restoreContext_ext m dv s.vs dc s.cs s.cg h.vs h.cs s.loadDepth s.restrictDestruct s.lastVerb
   refine ⟨m', h1, h2, h3, h4, h5, ?_⟩
   intro hnil hfirst
   cases hd : dc.getLast? with
@@ -53,7 +53,7 @@ example : ∃ m', restoreContext (ctxOf exS) exM = .ok m' ∧ m'.vs = [Slot.val]
     popped segment, each once, top first, and no other. -/
 theorem handlers_run_exactly_once (s m : M) (dv : List Slot) (dc : List Frame) (h : Extends s m dv dc) :
     ∃ m', restoreContext (ctxOf s) m = .ok m' ∧ m'.ran = (handlerIds dv).reverse ++ m.ran := by
-  obtain ⟨m', h1, _, _, _, _, h6, _⟩ := restoreContext_ext m dv s.vs dc s.cs s.cg h.vs h.cs s.loadDepth s.restrictDestruct
+  obtain ⟨m', h1, _, _, _, _, h6, _⟩ := restoreContext_ext m dv s.vs dc s.cs s.cg h.vs h.cs s.loadDepth s.restrictDestruct s.lastVerb
   exact ⟨m', h1, h6⟩
 
 example : ∃ m', restoreContext (ctxOf {}) { vs := [.handler 2, .val, .handler 7], ran := [1] } = .ok m' ∧ m'.ran = [7, 2, 1] :=
@@ -72,7 +72,7 @@ theorem catch_yields_message (s m : M) (dv : List Slot) (dc : List Frame) (link 
     (h : Extends s m dv dc) (hlim : m.errState &&& limitBits = 0) :
     ∃ m', catchFinish (ctxOf s) link (.err m) = .ok m' ∧ m'.lastCatch = m.catchValue ∧ m'.ctxs = link ∧
       m'.vs = s.vs ∧ m'.cs = s.cs ∧ m'.cg = s.cg := by
-  obtain ⟨m6, h1, h2, h3, h4, _, _, _, _, _, _, h11, h12, _⟩ := restoreContext_ext m dv s.vs dc s.cs s.cg h.vs h.cs s.loadDepth s.restrictDestruct
+  obtain ⟨m6, h1, h2, h3, h4, _, _, _, _, _, _, h11, h12, _⟩ := restoreContext_ext m dv s.vs dc s.cs s.cg h.vs h.cs s.loadDepth s.restrictDestruct s.lastVerb
   refine ⟨{ popContext link { pushVals 1 m6 with lastCatch := m6.catchValue, catchValue := .num 1 } with vs := m6.vs }, ?_, ?_, ?_, ?_, ?_, ?_⟩
   · have hlim' : m6.errState &&& limitBits = 0 := by rw [h12]; exact hlim
     have h1' : restoreContext (ctxOf s) m = .ok m6 := h1
@@ -181,10 +181,16 @@ theorem context_chain_restored_top (econ : Ctx) (link : List Ctx) (r : Res) (m' 
     while an error trace was being generated. -/
 theorem guards_reset (msg : String) (m m' : M) (h : raiseInner msg m = .err m') :
     m'.loadDepth = 0 ∧ m'.restrictDestruct = 0 ∧ (m.inError = false → m'.inError = false ∧ m'.inMudlibHandler = false) := by
+  have hb : ∀ x : M, (hbOffStep x).loadDepth = x.loadDepth ∧ (hbOffStep x).restrictDestruct = x.restrictDestruct ∧
+      (hbOffStep x).inError = x.inError ∧ (hbOffStep x).inMudlibHandler = x.inMudlibHandler := by
+    intro x; unfold hbOffStep; split <;> exact ⟨rfl, rfl, rfl, rfl⟩
   simp only [raiseInner, longjmp] at h
   repeat' split at h
   all_goals first | cases h | skip
-  all_goals simp_all [resetGuards]
+  all_goals first
+    | (simp_all [resetGuards]; done)
+    | (obtain ⟨h1, h2, h3, h4⟩ := hb { resetGuards m with inError := false, inMudlibHandler := false }
+       refine ⟨h1, h2, fun _ => ⟨h3, h4⟩⟩)
 
 example : ∃ m', raiseInner "x" { loadDepth := 3, restrictDestruct := 7, inMudlibHandler := true, ctxs := [{ saveSp := 0, saveCsp := 0, saveCg := 0 }] } = .err m' ∧
     m'.loadDepth = 0 ∧ m'.restrictDestruct = 0 ∧ m'.inMudlibHandler = false := ⟨_, rfl, rfl, rfl, rfl⟩
@@ -310,7 +316,7 @@ theorem top_restores (ob : Val) (p : Prog) (k : Nat) (m0 m1 : M) (econ : Ctx)
     obtain ⟨dv, hdv⟩ := hb.vs
     obtain ⟨dc, hdc⟩ := hb.cs
     obtain ⟨m5, h1, h2, h3, h4, _, _, _, h8, h9, h10, _⟩ := restoreContext_ext m4 dv m0.vs (dc ++ [⟨.function, m1.r⟩]) m0.cs m0.cg
-      (by rw [hdv, hm2v]) (by rw [hdc, hm2c]; simp) m0.loadDepth m0.restrictDestruct
+      (by rw [hdv, hm2v]) (by rw [hdc, hm2c]; simp) m0.loadDepth m0.restrictDestruct m0.lastVerb
     have h1 : restoreContext (ctxOf m0) m4 = .ok m5 := h1
     have hr5 : m5.r = m1.r := h8 ⟨.function, m1.r⟩ (by simp)
     refine ⟨popContext m0.ctxs m5, ?_, h2, h3, rfl, hr5.trans hr1, fun _ => h4, h9, h10⟩
